@@ -88,3 +88,20 @@ def _v34(repo, mod):
     fn = repo.func(LG, "_gen_str")
     c = find_node(fn, lambda n: isinstance(n, ast.Call) and norm(n.func) == "max" and "string_length" in norm(n))
     return replace_node(mod, c, "(tc.string_length if tc.string_length > 0 else 1)")
+
+
+TFM = "pynguin.testcase.testfactory"
+
+
+@variant("C23", "mutated-tuple-payload-rendered-as-list", TFM, "C23.ml-mutate", "the mutated elements are re-wrapped in the type of the helper's list")
+def _v40(repo, mod):
+    fn = repo.func(TFM, "MLTestFactory._mutated_ml_expr")
+    s = find_stmt(fn, lambda s: isinstance(s, ast.AnnAssign) and norm(s.target) == "payload")
+    return replace_node(mod, s.value, "type(elements)(elements)")
+
+
+@variant("C23", "twin-payload-by-conditional-statement", TFM, None, "the same re-wrapping written as an if statement stays silent")
+def _v41(repo, mod):
+    fn = repo.func(TFM, "MLTestFactory._mutated_ml_expr")
+    s = find_stmt(fn, lambda s: isinstance(s, ast.AnnAssign) and norm(s.target) == "payload")
+    return replace_node(mod, s.value, "elements if not info.is_tuple else tuple(elements)")
